@@ -66,6 +66,7 @@ Proof.
   destruct (negb (q_active qu)); auto.
   pose proof (allq_get _ _ _ _ H Eq) as Hq.
   apply allq_set_queue; [qinv_solve|]. sq.
+  eapply allq_same_queues; [apply store_writeback_frame|exact H].
 Qed.
 Lemma remove_first_nonempty {A} (p : A -> bool) l : remove_first p l <> [] -> l <> [].
 Proof. destruct l; simpl; congruence. Qed.
